@@ -379,7 +379,23 @@ def canonicalise(tree, relpath=None):
     for fn in [n for n in ast.walk(tree) if isinstance(n, (ast.FunctionDef, ast.AsyncFunctionDef))]:
         fn.body = _canon_block(fn.body, fn)
     ast.fix_missing_locations(tree)
+    # document order after the transformations (statements read in place keep the line numbers of where they are written,
+    # so line numbers do not order the code any more): every node gets its pre-order index
+    k = [0]
+
+    def number(n):
+        k[0] += 1
+        n._ord = k[0]
+        for c in ast.iter_child_nodes(n):
+            number(c)
+    number(tree)
     return tree
+
+
+def pos(n) -> int:
+    """position of a node in the (canonical) document order of its module"""
+    o = getattr(n, "_ord", None)
+    return o if o is not None else getattr(n, "lineno", 0) * 100000 + getattr(n, "col_offset", 0)
 
 
 class Module:
